@@ -33,7 +33,7 @@ fn floors(_t: Tier) -> Vec<(&'static str, u64)> {
     vec![("evaluations", 8_000), ("refusals_observed", 200), ("softmax_rows_monitored", 300), ("elements_compared", 50_000)]
 }
 
-const FUNCS: u64 = 29;
+const FUNCS: u64 = 31;
 const POWF_EXP: [f64; 8] = [-2.0, -1.0, -0.5, 0.5, 1.0, 2.0, 3.0, 3.5];
 
 fn check_value(ctx: &mut Ctx, name: &str, d: &[usize], vals_in: &[f64], kind: &OpKind, exact: bool) {
@@ -282,6 +282,20 @@ pub fn run_case(ctx: &mut Ctx, fam: &str, k: u64, r: &mut Rng) {
             name = "exp-wide".into();
             let wide: Vec<f64> = q.iter().map(|x| x * 10.0).collect();
             check_value(ctx, "exp", &d, &wide, &OpKind::Exp, false)
+        }
+        29 => {
+            // the whole positive range of the build's float type, subnormals included: exact powers of two
+            name = "ln-extreme".into();
+            let exps: &[i32] = if IS_F32 { &[-149, -140, -130, -127, -126, -60, -1, 0, 60, 120, 127] } else { &[-1074, -1060, -1030, -1023, -1022, -500, -1, 0, 500, 1000, 1023] };
+            let v: Vec<f64> = (0..n).map(|_| (2.0f64).powi(*r.pick(exps))).collect();
+            check_value(ctx, "ln", &d, &v, &OpKind::Ln, false)
+        }
+        30 => {
+            // reciprocals of powers of two are exact while the result stays a normal number
+            name = "reciprocal-extreme".into();
+            let lim = if IS_F32 { 126 } else { 1022 };
+            let v: Vec<f64> = (0..n).map(|_| (2.0f64).powi(r.int(-(lim as i64), lim as i64) as i32) * if r.chance(1, 2) { -1.0 } else { 1.0 }).collect();
+            check_value(ctx, "reciprocal", &d, &v, &OpKind::Recip, false)
         }
         _ => {
             name = "sigmoid-wide".into();
